@@ -16,6 +16,7 @@ LEVEL_NOTE = "necessary conditions only"
 def run(ctx):
     from . import guardvocab
     guardvocab.G0(ctx, effects={'init-static'})
+    guardvocab.G1(ctx, effects={'init-static'})
     tlsrules.H1(ctx)
     tlsrules.H2(ctx)
     tlsrules.H3(ctx)
